@@ -46,7 +46,7 @@ def _temporary_renames(**kwargs: Var):
     pre: Dict[Var, Optional[str]] = {}
     try:
         for name, arg in kwargs.items():
-            pre[arg] = arg._name
+            pre.setdefault(arg, arg._name)
             arg._rename(name)
         yield
     finally:
